@@ -49,11 +49,10 @@ def gen_body(rng, defined, upto, nvars, depth=0):
             return ("not", ("call", PREDS[i][0], tuple(gen_term(rng, nvars) for _ in range(PREDS[i][1]))))
     if k < 0.55:
         return ("true",)
-    pool = list(defined) if (defined and rng.random() < 0.9) else list(range(len(PREDS)))
-    # mostly call lower predicates (keeps most programs free of positive loops), sometimes any
-    low = [i for i in pool if i < upto]
-    if low and rng.random() < 0.8:
-        pool = low
+    # positive calls only to predicates with an index <= the head's (self recursion allowed),
+    # negative ones only to strictly lower ones: no cycle through negation can arise
+    pool = [i for i in defined if i <= upto] if rng.random() < 0.9 else []
+    pool = pool or [i for i in range(len(PREDS)) if i <= upto]
     i = rng.choice(pool)
     return ("call", PREDS[i][0], tuple(gen_term(rng, nvars) for _ in range(PREDS[i][1])))
 
@@ -302,16 +301,20 @@ def observe(eng, db, defined_preds):
             res = get_evaluatable().create_from(lf).evaluate()
         return {str(k): float(v) for k, v in res.items()}
     try:
-        r = pl.with_timeout(ev, 20, qs) if qs else {}
+        r = pl.with_timeout(ev, 4, qs) if qs else {}
         for q in qs:
             out["P " + str(q)] = ("ok", r.get(str(q), 0.0))
     except BaseException as e:  # noqa
         if isinstance(e, (KeyboardInterrupt, SystemExit)):
             raise
+        timed_out = pl.err_class(e) == "Timeout"
         for q in qs:
+            if timed_out:
+                out["P " + str(q)] = ("err", "Timeout")
+                continue
             try:
                 eng = DefaultEngine()
-                r = pl.with_timeout(ev, 20, [q])
+                r = pl.with_timeout(ev, 4, [q])
                 out["P " + str(q)] = ("ok", r.get(str(q), 0.0))
             except BaseException as e2:  # noqa
                 if isinstance(e2, (KeyboardInterrupt, SystemExit)):
@@ -321,7 +324,7 @@ def observe(eng, db, defined_preds):
         if f not in defined_preds:
             continue
         try:
-            res = pl.with_timeout(DefaultEngine().query, 20, db, Term(f, *([None] * ar)))
+            res = pl.with_timeout(DefaultEngine().query, 3, db, Term(f, *([None] * ar)))
             out["Q %s/%d" % (f, ar)] = ("ok", sorted(set(str(tuple(map(str, r))) for r in res)))
         except BaseException as e:  # noqa
             if isinstance(e, (KeyboardInterrupt, SystemExit)):
@@ -330,7 +333,7 @@ def observe(eng, db, defined_preds):
     return out
 
 
-def wmc_enum(lf, max_worlds=1 << 13):
+def wmc_enum(lf, max_worlds=1 << 12):
     """Exact success probabilities of the queries of a ground program by enumeration of the
     choices (independent atoms: 2 outcomes, annotated disjunction groups: k+1 outcomes) over the
     cycle-free LogicDAG.  Used for both sides of every comparison (much faster than one dsharp
@@ -358,43 +361,61 @@ def wmc_enum(lf, max_worlds=1 << 13):
         if kinds[i] == "atom" and i not in grouped:
             p = float(nodes[i].probability)
             choices.append([([(i, True)], p), ([(i, False)], 1.0 - p)])
-    total = 1
-    for o in choices:
-        total *= len(o)
+    queries = [(name, key) for name, key in dag.queries()]
+    res = {}
+    import itertools
+
+    def support(k, acc):
+        k = abs(k)
+        if k in acc:
+            return
+        acc.add(k)
+        if kinds[k] in ("conj", "disj"):
+            for c in nodes[k].children:
+                support(c, acc)
+    for name, key in queries:
+        if key is None:
+            res[name] = 0.0
+            continue
+        if key == 0:
+            res[name] = 1.0
+            continue
+        sup = set()
+        support(key, sup)
+        rel = [o for o in choices if any(m in sup for m, _ in o[0][0])]
+        total = 1
+        for o in rel:
+            total *= len(o)
         if total > max_worlds:
             return None
-    queries = [(name, key) for name, key in dag.queries()]
-    res = {name: 0.0 for name, _ in queries}
-    import itertools
-    for combo in itertools.product(*choices):
-        w = 1.0
-        val = {}
-        for assign, p in combo:
-            w *= p
-            for m, b in assign:
-                val[m] = b
-        if w == 0.0:
-            continue
-
-        def value(k):
-            if k < 0:
-                return not value(-k)
-            if k in val:
-                return val[k]
-            nd = nodes[k]
-            if kinds[k] == "conj":
-                v = all(value(c) for c in nd.children)
-            elif kinds[k] == "disj":
-                v = any(value(c) for c in nd.children)
-            else:
-                raise ValueError("unexpected node %r" % (nd,))
-            val[k] = v
-            return v
-        for name, key in queries:
-            if key is None:
+        acc = 0.0
+        for combo in itertools.product(*rel):
+            w = 1.0
+            val = {}
+            for assign, p in combo:
+                w *= p
+                for m, b in assign:
+                    val[m] = b
+            if w == 0.0:
                 continue
-            if key == 0 or value(key):
-                res[name] += w
+
+            def value(k):
+                if k < 0:
+                    return not value(-k)
+                if k in val:
+                    return val[k]
+                nd = nodes[k]
+                if kinds[k] == "conj":
+                    v = all(value(c) for c in nd.children)
+                elif kinds[k] == "disj":
+                    v = any(value(c) for c in nd.children)
+                else:
+                    raise ValueError("unexpected node %r" % (nd,))
+                val[k] = v
+                return v
+            if value(key):
+                acc += w
+        res[name] = acc
     return res
 
 
@@ -403,6 +424,8 @@ def same_obs(a, b, tol=1e-9):
     bad = []
     for k in sorted(set(a) | set(b)):
         x, y = a.get(k), b.get(k)
+        if (x is not None and x == ("err", "Timeout")) or (y is not None and y == ("err", "Timeout")):
+            continue            # no observation (load dependent): never compared
         if x is None or y is None or x[0] != y[0]:
             bad.append(k)
         elif x[0] == "ok" and k.startswith("P "):
